@@ -74,3 +74,44 @@ Theorem C15_ma_constructor_affine_all {pw : PW} (c : ma_cfg) (a b v : @F NumR) x
   exists s0 s1, ma_init c v = Ok s0 /\ ma_init c (aff a b v) = Ok s1 /\
     snd (ma_next (steps ma_next s1 (map (aff a b) xs)) (aff a b x)) = aff a b (snd (ma_next (steps ma_next s0 xs) x)).
 Proof. exact (ma_method_affine_all c a b v xs x). Qed.
+
+(** superposition for ALL thirteen linear kinds of the MA constructor (every kind but the moving median and Vidya): the definition
+    is additive in the history, and so is the running instance for every accepted length and every pair of equally long streams *)
+From Yata Require Import Proofs.Linear.
+Theorem C15_ma_superposition_all_kinds {pw : PW} (c : ma_cfg) (x0 y0 : @F NumR) rh rg : ma_linear_kind c = true -> length rh = length rg ->
+  ma_def c (x0 + y0)%R (zsum rh rg) = (ma_def c x0 rh + ma_def c y0 rg)%R.
+Proof. exact (ma_def_superposition c x0 y0 rh rg). Qed.
+Theorem C15_ma_constructor_superposition {pw : PW} (c : ma_cfg) (v w : @F NumR) xs ys x y :
+  ma_linear_kind c = true -> ma_len_ok c -> length xs = length ys ->
+  exists s1 s2 s3, ma_init c v = Ok s1 /\ ma_init c w = Ok s2 /\ ma_init c (v + w)%R = Ok s3 /\
+    snd (ma_next (steps ma_next s3 (zsum xs ys)) (x + y)%R) =
+    (snd (ma_next (steps ma_next s1 xs) x) + snd (ma_next (steps ma_next s2 ys) y))%R.
+Proof. exact (ma_method_superposition c v w xs ys x y). Qed.
+
+(** range: the kinds with non-negative weights (SMA, WMA, EMA, DMA, TMA, RMA, WSMA) stay between the smallest and the largest value
+    they have been given - definition and running instance, every accepted length, every stream *)
+From Yata Require Import Proofs.RangeMA Proofs.IndicatorProofs11.
+Theorem C15_ma_constructor_range {pw : PW} (c : ma_cfg) (v lo hi : @F NumR) xs x : ma_no_overshoot c = true -> ma_len_ok c ->
+  (1 <= ma_period c)%Z -> (lo <= v <= hi)%R -> (forall z, In z (xs ++ [x]) -> (lo <= z <= hi)%R) ->
+  exists s0, ma_init c v = Ok s0 /\ (lo <= snd (ma_next (steps ma_next s0 xs) x) <= hi)%R.
+Proof.
+  intros Hk Hl Hn Hv Hin. destruct (ma_correct c v xs x (ma_proved_all c) Hl) as (s0 & E & H). exists s0. split; [exact E|]. rewrite H.
+  apply ma_def_range; try assumption. intros z Hz. apply Hin. apply in_rev. exact Hz.
+Qed.
+
+(** impulse response of LinReg: the least-squares end-point weights (the oldest inputs get NEGATIVE weights: LinReg is linear and
+    affine-equivariant but not range-preserving) *)
+From Yata Require Import Proofs.LinRegImpulse.
+Theorem C15_lin_reg_impulse n k : (2 <= n)%nat -> (k < n)%nat ->
+  linreg_def n (impulse k) = (2 * (2 * INR n - 1 - 3 * INR k) / (INR n * (INR n + 1)))%R.
+Proof. exact (linreg_impulse n k). Qed.
+
+(** range preservation on BINARY64 itself: the binary64 EMA recurrence y' = fma(x - y, alpha, y) with 0 <= alpha <= 1/2 (every
+    length >= 3) never leaves the interval spanned by its construction value and its inputs - exactly, with no rounding allowance,
+    after any number of steps (rounding is monotone and fixes floats); [emaF] is the model's recurrence (C07_ema_...) *)
+From Yata Require Import Base.NumF64 Proofs.RoundingLink Proofs.RoundingLinkEma Proofs.Binary64Rsi.
+Theorem C15_ema_binary64_range (a y0 : PrimFloat.float) (lo hi : R) (l : list PrimFloat.float) : fin a -> (0 <= val a <= / 2)%R ->
+  fin y0 -> (lo <= val y0 <= hi)%R -> (- half_big <= lo)%R -> (hi <= half_big)%R ->
+  Forall (fun x => fin x /\ (lo <= val x <= hi)%R) l ->
+  fin (emaF a y0 l) /\ (lo <= val (emaF a y0 l) <= hi)%R.
+Proof. exact (ema_binary64_between a y0 lo hi l). Qed.
